@@ -144,6 +144,7 @@ func kindHist(c *hlib.Ctx) {
 		fmt.Fprintf(&sb, " X %d%s", len(x.coords), xs.String())
 	}
 	c.Stat(fmt.Sprintf("hist-steps-%d", k), 1)
+	c.Stat(rowStat("hist", p), 1)
 	c.Stat("hist:"+desc, 1)
 	c.Emit(head+sb.String(), "ok")
 }
